@@ -154,6 +154,8 @@ type c02Op struct {
 	ClientState string `json:"client_state,omitempty"`
 	Challenge   string `json:"challenge,omitempty"`
 	Method      string `json:"method,omitempty"`
+	Schedule []int `json:"schedule,omitempty"` // race: the order in which the two overlapping requests take their steps on the nonce entry (the replay IS the schedule)
+	Trace    []string `json:"trace,omitempty"`  // race: the store methods that were gated, in schedule order (information)
 	Fault string `json:"fault,omitempty"` // "nonce-get": the session store fails the first read of an s2s nonce entry during this request (Redis worlds)
 	HTTP bool `json:"http,omitempty"` // the operation goes through the real echo routes (form binding, strict handler, error writers)
 	// introspect / probe / advance
@@ -189,6 +191,7 @@ type c02World struct {
 	dir      string
 	echo     *echo.Echo
 	redis    bool
+	sched    *c02Sched
 	failNonceGet bool // armed: the next GET of an s2s nonce key fails
 	verifyArgsBad bool
 }
@@ -196,6 +199,107 @@ type c02World struct {
 // c02Ager ages every stored session entry by d (time translation); rewrite may adjust time stamps inside a value
 type c02Ager interface {
 	Age(d time.Duration, rewrite func(fullKey string, value []byte) []byte)
+}
+
+// ---- schedule exploration: two overlapping posts of the same authorization response ------------------------------------
+// Only one of the two requests runs at any time; a request parks whenever it is about to call Get / Delete / GetAndDelete on
+// the nonce entry it presents, and the controller decides who goes next. One store method call = one atomic step.
+
+type c02SchedEvent struct {
+	thread int
+	done   bool
+	method string
+}
+
+type c02Sched struct {
+	key     string // full key part: the real nonce
+	cur     int
+	release [2]chan struct{}
+	events  chan c02SchedEvent
+}
+
+func (w *c02World) gate(prefix, method, key string) {
+	s := w.sched
+	if s == nil || prefix != "oauth/nonce" || key != s.key || (method != "Get" && method != "Delete" && method != "GetAndDelete") {
+		return
+	}
+	th := s.cur
+	s.events <- c02SchedEvent{thread: th, method: method}
+	<-s.release[th]
+}
+
+// execRace posts the same response twice, overlapping, under the schedule op.Schedule (a preference list: at step k thread
+// Schedule[k] goes if it is parked, else the other one); the schedule actually taken replaces it.
+func (w *c02World) execRace(op *c02Op) string {
+	if w.redis {
+		return "race-needs-in-memory-world"
+	}
+	body := w.authRespBody(op)
+	nonce := ""
+	for _, v := range op.VPs {
+		if nonce = v.Challenge; nonce == "" {
+			nonce = v.Nonce
+		}
+		break
+	}
+	if r, ok := w.nonceReal[nonce]; ok {
+		nonce = r
+	}
+	s := &c02Sched{key: nonce, events: make(chan c02SchedEvent)}
+	s.release[0], s.release[1] = make(chan struct{}), make(chan struct{})
+	w.sched = s
+	defer func() { w.sched = nil; w.verifyArgsBad = false }()
+	op.T = w.nowNs()
+	var results [2]string
+	parked := map[int]bool{}
+	wait := func() bool {
+		select {
+		case ev := <-s.events:
+			if ev.done {
+				delete(parked, ev.thread)
+			} else {
+				parked[ev.thread] = true
+				op.Trace = append(op.Trace, fmt.Sprintf("%c:%s", 'A'+ev.thread, ev.method))
+			}
+			return true
+		case <-time.After(10 * time.Second):
+			return false
+		}
+	}
+	op.Trace = nil
+	for i := 0; i < 2; i++ {
+		i := i
+		s.cur = i
+		direct := *op
+		direct.HTTP = false
+		go func() {
+			results[i] = w.postAuthResp(&direct, body)
+			s.events <- c02SchedEvent{thread: i, done: true}
+		}()
+		if !wait() {
+			return "race-timeout"
+		}
+	}
+	pref := op.Schedule
+	var taken []int
+	for k := 0; len(parked) > 0; k++ {
+		i := 0
+		if k < len(pref) {
+			i = pref[k] % 2
+		}
+		if !parked[i] {
+			i = 1 - i
+		}
+		taken = append(taken, i)
+		delete(parked, i)
+		s.cur = i
+		s.release[i] <- struct{}{}
+		if !wait() {
+			return "race-timeout"
+		}
+	}
+	op.Schedule = taken
+	return fmt.Sprintf("race A[%s] B[%s]", results[0], results[1])
 }
 
 // c02FaultHook fails exactly one GET of an s2s nonce entry when armed (a transient read failure of the store)
@@ -250,8 +354,9 @@ func c02NewWorld(t *testing.T, cfg c02Op) *c02World {
 		w.db = c02RedisAger{mr}
 		t.Cleanup(func() { _ = client.Close() })
 	} else {
+		// pass-through wrapper that announces every session-store method call: used to force interleavings of two requests
 		mem := storage.NewVerifSessionDB()
-		sessionDB, w.db = mem, mem
+		sessionDB, w.db = &storage.VerifGatedSessionDB{Inner: mem, Gate: w.gate}, mem
 	}
 	engine := storage.NewMockEngine(ctrl)
 	engine.EXPECT().GetSessionDatabase().Return(sessionDB).AnyTimes()
@@ -971,6 +1076,14 @@ func (w *c02World) realState(name *string) *string {
 }
 
 func (w *c02World) execAuthResp(op *c02Op) string {
+	body := w.authRespBody(op)
+	op.T = w.nowNs()
+	defer func() { w.verifyArgsBad = false }()
+	return w.postAuthResp(op, body)
+}
+
+// authRespBody scripts the verifier, computes the PEX verdicts and builds the form body of an authorization response
+func (w *c02World) authRespBody(op *c02Op) HandleAuthorizeResponseFormdataRequestBody {
 	w.script(op.VPs)
 	op.Pex = []int{}
 	// PEX verdicts of this submission + envelope against every definition of the world (the model looks up the one it needs)
@@ -997,8 +1110,11 @@ func (w *c02World) execAuthResp(op *c02Op) string {
 	if op.SubmissionPresent {
 		body.PresentationSubmission = op.Submission
 	}
-	op.T = w.nowNs()
-	defer func() { w.verifyArgsBad = false }()
+	return body
+}
+
+// postAuthResp posts the response to the real handler (directly or over HTTP) and renders the answer
+func (w *c02World) postAuthResp(op *c02Op, body HandleAuthorizeResponseFormdataRequestBody) string {
 	return c02Recover(func() string {
 		var r HandleAuthorizeResponse200JSONResponse
 		if op.HTTP {
@@ -1110,6 +1226,8 @@ func (w *c02World) exec(op *c02Op) string {
 		return w.execAuthResp(op)
 	case "authreq":
 		return w.execAuthReq(op)
+	case "race":
+		return w.execRace(op)
 	case "code":
 		return w.execCode(op)
 	}
@@ -2445,6 +2563,43 @@ func c02Targeted(t *testing.T, out *c02Out, seed int64) {
 		}
 		w.ctrl.Finish()
 	}
+	// (f) schedule exploration: two overlapping posts of the same authorization response, every preference sequence of length 4
+	//     (all interleavings of up to 2 steps per request on the nonce entry); every code that comes back is redeemed
+	{
+		g := &c02Gen{rng: rng, subjects: []string{"alpha", "alpha2", "beta"}}
+		cfg := g.newConfig(false)
+		w := c02NewWorld(t, cfg)
+		cfg.T = w.nowNs()
+		out.emit(&cfg, "cfg")
+		for pref := 0; pref < 16; pref++ {
+			req, sess := g.authRequest(nil)
+			line := w.exec(&req)
+			out.emit(&req, line)
+			if !strings.HasPrefix(line, "302 ") {
+				continue
+			}
+			f := strings.Fields(line)
+			sess.State, sess.Nonces = f[1][len("state="):], []string{f[2][len("nonce="):]}
+			g.sessions = append(g.sessions, sess)
+			race := g.authResponse(sess, nil, w.nowMs())
+			race.Op, race.Schedule = "race", []int{pref & 1, pref >> 1 & 1, pref >> 2 & 1, pref >> 3 & 1}
+			rl := w.exec(&race)
+			out.emit(&race, rl)
+			for _, x := range strings.FieldsFunc(rl, func(r rune) bool { return r == ' ' || r == '[' || r == ']' }) {
+				if strings.HasPrefix(x, "code=") {
+					g.codes = []c02GenCode{{Name: x[len("code="):], Session: sess}}
+					c := g.codeRequest(nil)
+					cl := w.exec(&c)
+					out.emit(&c, cl)
+					if strings.HasPrefix(cl, "200 token=") {
+						in := c02Op{Op: "introspect", Token: strings.Fields(cl)[1][len("token="):]}
+						out.emit(&in, w.exec(&in))
+					}
+				}
+			}
+		}
+		w.ctrl.Finish()
+	}
 	// (b)
 	g := &c02Gen{rng: rng, subjects: []string{"alpha", "alpha2", "beta"}}
 	cfg := g.newConfig(false)
@@ -2542,6 +2697,11 @@ func TestVerifC02(t *testing.T) {
 				} else {
 					op, pendingSess = g.authRequest(g.subsetOf(c02AuthReqDefects, 2))
 				}
+			case r >= 100 && r < 104 && fresh != nil && !w.redis:
+				// two overlapping posts of the same (valid) response under a random schedule
+				op = g.authResponse(fresh, nil, w.nowMs())
+				op.Op, op.Schedule = "race", []int{rng.Intn(2), rng.Intn(2), rng.Intn(2), rng.Intn(2)}
+				fresh.Used = true
 			case r >= 100 && r < 118 && fresh != nil:
 				op = g.authResponse(fresh, g.subsetOf(c02AuthDefects, 3), w.nowMs())
 				fresh.Used = true
@@ -2615,6 +2775,22 @@ func TestVerifC02(t *testing.T) {
 				pendingSess.State = f[1][len("state="):]
 				pendingSess.Nonces = []string{f[2][len("nonce="):]}
 				g.sessions = append(g.sessions, pendingSess)
+			}
+			if op.Op == "race" && op.State != nil {
+				for _, sess := range g.sessions {
+					if sess.State != *op.State {
+						continue
+					}
+					for _, f := range strings.FieldsFunc(line, func(r rune) bool { return r == ' ' || r == '[' || r == ']' }) {
+						if strings.HasPrefix(f, "code=") {
+							g.codes = append(g.codes, c02GenCode{Name: f[len("code="):], Session: sess})
+						}
+						if strings.HasPrefix(f, "nonce=") {
+							sess.Nonces = append(sess.Nonces, f[len("nonce="):])
+							sess.Used = false
+						}
+					}
+				}
 			}
 			if op.Op == "authresp" && op.State != nil {
 				for _, sess := range g.sessions {
